@@ -127,9 +127,10 @@ Section Main.
     clauses s (o_after ob) (o_events ob) ->
     (negb (is_copy o) ||
        (seteq (o_after ob) s && match o_copy_validates ob with Some true => true | _ => false end)) = true ->
+    o_observed ob = None ->
     law_step vld s o ob = [].
   Proof.
-    intros Hb H1 H2 H3 Hc H8. unfold law_step. rewrite Hb, H1, H2, H3, H8. cbn [chk app].
+    intros Hb H1 H2 H3 Hc H8 H9. unfold law_step. rewrite Hb, H1, H2, H3, H8, H9. cbn [chk app].
     pose proof (clauses_chk _ _ _ Hc) as H. cbn [chk app]. rewrite app_nil_r. exact H.
   Qed.
 
@@ -145,26 +146,28 @@ Section Main.
   Lemma raise_law s o e :
     builtin vld s o None = (Raise e, s) -> is_copy o = false -> law_step vld s o (raise e s) = [].
   Proof.
-    intros Hb Hc. eapply law_step_intro; cbn [raise o_out o_after o_events o_ret o_copy_validates].
+    intros Hb Hc. eapply law_step_intro; cbn [raise o_out o_after o_events o_ret o_copy_validates o_observed].
     - exact Hb.
     - cbn. destruct e; reflexivity.
     - apply seteq_refl.
     - cbn. rewrite seteq_refl. reflexivity.
     - apply clauses_raise.
     - rewrite Hc. reflexivity.
+    - reflexivity.
   Qed.
 
   Lemma ok_law s o new evs ba :
     builtin vld s o None = (Ok, ba) -> is_copy o = false ->
     seteq new ba = true -> clauses s new evs -> law_step vld s o (ok new evs) = [].
   Proof.
-    intros Hb Hc H2 Hcl. eapply law_step_intro; cbn [ok o_out o_after o_events o_ret o_copy_validates].
+    intros Hb Hc H2 Hcl. eapply law_step_intro; cbn [ok o_out o_after o_events o_ret o_copy_validates o_observed].
     - exact Hb.
     - reflexivity.
     - exact H2.
     - reflexivity.
     - exact Hcl.
     - rewrite Hc. reflexivity.
+    - reflexivity.
   Qed.
 
   Lemma removed_only_law s o new :
@@ -249,7 +252,7 @@ Section Main.
         { subst x. destruct hint as [y|]; [destruct (mem y s) eqn:E; [exact E|] |];
             subst s; rewrite mem_cons, Z.eqb_refl; reflexivity. }
         eapply law_step_intro with (bo := Ok) (ba := remove1 x s);
-          cbn [o_out o_after o_events o_ret o_copy_validates].
+          cbn [o_out o_after o_events o_ret o_copy_validates o_observed].
         * assert (He : is_empty s = false) by reflexivity.
           cbn [builtin]. rewrite He.
           match goal with |- (if ?c then _ else _) = _ => replace c with true by (symmetry; exact Hx) end.
@@ -260,6 +263,7 @@ Section Main.
         * apply law_changed; [ | reflexivity | | reflexivity].
           -- unfold subset. cbn [forallb]. rewrite Hx. reflexivity.
           -- clearbody x s. seteq_tac.
+        * reflexivity.
         * reflexivity.
     - (* Clear *)
       destruct (is_empty s) eqn:Ee.
@@ -298,13 +302,14 @@ Section Main.
     - (* SymDiffUpdate *)
       apply xor_law; reflexivity.
     - (* Copy *)
-      eapply law_step_intro with (bo := Ok) (ba := s); cbn [o_out o_after o_events o_ret o_copy_validates].
+      eapply law_step_intro with (bo := Ok) (ba := s); cbn [o_out o_after o_events o_ret o_copy_validates o_observed].
       + reflexivity.
       + reflexivity.
       + apply seteq_refl.
       + reflexivity.
       + apply clauses_raise.
       + cbn. rewrite seteq_refl. reflexivity.
+      + reflexivity.
   Qed.
 
   (* The law holds on every history of the model, from every state. *)
